@@ -31,12 +31,12 @@ def _state():
     if MODE == "default":
         return State(D)
     if MODE == "header":
-        return State(default=OTHER, history=[("lang", D)])
+        return State(default=OTHER, history=[("touchstep",), ("lang", D)])
     if MODE == "history":
         # an earlier document switched to OTHER, a new parse starts, then this document's header (or none if D is the default)
-        return State(default=D, history=[("touch", "Given x"), ("lang", OTHER), ("touch", "zzz"), ("touch", "@t"), ("reset",)])
+        return State(default=D, history=[("touch", "Given x"), ("touchstep",), ("lang", OTHER), ("touch", "zzz"), ("touchstep",), ("touch", "@t"), ("reset",)])
     if MODE == "history2":
-        return State(default=OTHER, history=[("touch", "x"), ("lang", D), ("touch", "y"), ("reset",), ("touch", "| a |"), ("lang", D)])
+        return State(default=OTHER, history=[("touch", "x"), ("touchstep",), ("lang", D), ("touch", "y"), ("touchstep",), ("reset",), ("touch", "| a |"), ("touchstep",), ("lang", D)])
     if MODE == "dirty":
         # the previous document switched dialect AND ended inside an indented doc string; a new parse starts
         return State(default=D, history=[("lang", OTHER), ("touch", "x"), ("open", '      """'), ("touch", "y"), ("reset",)])
